@@ -4,7 +4,7 @@
 From Coq Require Import List ZArith NArith Bool Lia.
 From RecordUpdate Require Import RecordSet.
 From PC.Base Require Import Assoc.
-From PC.Sup Require Import Model Monitors Tactics Sim ObsFacts Effects RelCore LemC09 LemC09b RelC09.
+From PC.Sup Require Import Model Monitors Tactics Sim ObsFacts Effects RelCore LemC09 LemC09b LemC09c RelC09.
 Import ListNotations RecordSetNotations.
 
 (* ---- association-list facts --------------------------------------------------------------------------- *)
@@ -125,6 +125,28 @@ Proof.
   destruct C as (x2 & E2 & F). exists x. split; [reflexivity|]. congruence.
 Qed.
 
+(* well-formed configuration: process names are unique *)
+Fixpoint nodupN (l : list N) : bool :=
+  match l with [] => true | a :: r => negb (memN a r) && nodupN r end.
+Definition wf_confs (cs : amap pconf) : bool := nodupN (map fst cs).
+
+Lemma in_get_nodup {A} (m : amap A) k v : nodupN (map fst m) = true -> In (k, v) m -> get k m = Some v.
+Proof.
+  induction m as [|[k' v'] r IH]; cbn; [tauto|]. intros H Hin. apply andb_true_iff in H. destruct H as [H1 H2].
+  destruct (N.eqb_spec k' k) as [->|Hne].
+  - destruct Hin as [Hin|Hin]; [congruence|]. exfalso. apply negb_true_iff in H1.
+    assert (memN k (map fst r) = true); [|congruence]. apply memN_In. now apply (in_map fst) in Hin.
+  - destruct Hin as [Hin|Hin]; [congruence|]. auto.
+Qed.
+
+Lemma runnable_not_deferred s n : wf_confs (confs s) = true -> memN n (runnable_names s) = true ->
+  exists c, get n (confs s) = Some c /\ deferred c = false.
+Proof.
+  intros Hwf H. apply memN_In in H. unfold runnable_names in H. apply in_map_iff in H. destruct H as ([k c] & Hk & Hin).
+  cbn in Hk. subst k. apply filter_In in Hin. destruct Hin as [Hin Hd]. cbn in Hd. apply negb_true_iff in Hd.
+  exists c. split; [|exact Hd]. now apply in_get_nodup.
+Qed.
+
 Section RelC09b.
 Context (cs : amap pconf).
 
@@ -153,8 +175,9 @@ Definition asm (o : obs) (te : tid * event) : bool :=
       let x := oi_get o i in
       is_running_status (r_status (on_get o (o_nm x))) && o_alive x
       && negb (opt_eqb status_eqb (o_endst x) (Some STerminating))
-  | ENewInst i n => api_thread o (fst te) ||
-                    (forallb (fun y => negb (N.eqb (o_nm y) n)) (vals (oi o)) && negb (deferred (conf_of cs n)))
+  | ENewInst i n =>
+      (* Run()'s spawn loop creates only the first instance of a name *)
+      api_thread o (fst te) || forallb (fun y => negb (N.eqb (o_nm y) n)) (vals (oi o))
   | _ => true
   end.
 
@@ -500,17 +523,45 @@ Proof.
   - intros j Hj. change (get j (insts s) = None) in Hj. rewrite Hbeg, (B j Hj). cbn. destruct (N.eqb_spec i j); [congruence|reflexivity].
 Qed.
 
+(* threads: a thread on its way to runProcess from StartProcess/RestartProcess is known to the observer as an
+   API call other than Run; the names Run() still has to spawn are not disabled *)
+Definition TI (s : sys) (o : obs) : Prop := forall th,
+  (chain (apc_of s th) = true -> api_thread o th = true) /\
+  (forall todo, apc_of s th = ARun todo -> forall n, memN n todo = true -> exists c, get n cs = Some c /\ deferred c = false).
+
+Lemma TI_init ord : TI (init cs ord) (obs0 cs).
+Proof. intros th. split; [discriminate|]. intros todo H. discriminate H. Qed.
+
+Lemma TI_step s o th e s' : wf_confs cs = true -> confs s = cs -> TI s o -> step s (th, e) = Some s' ->
+  TI s' (obs_step cs o (th, e)).
+Proof.
+  intros Hwf Hcs HT H. destruct (step_apc _ _ _ _ H) as [A B]. intros th'.
+  unfold api_thread. rewrite obs_step_o_api.
+  destruct (N.eqb_spec th' th) as [->|Hne].
+  - destruct (HT th) as [T1 T2]. unfold api_thread in T1.
+    destruct e; cbn [api_rel] in B;
+    try (progress unfold weak_rel in B; destruct B as [B1 B2]; split; [intros Hc; auto|intros todo' Hq n9 Hn9; destruct (B2 todo' Hq) as (todo9 & Ea & Hsub); eauto]).
+    + (* EApiBegin *) rewrite B, get_set_same. destruct op; cbn; split; try discriminate; auto.
+      intros todo [= <-] n Hn. rewrite <- Hcs in Hwf. destruct (runnable_not_deferred s n Hwf Hn) as (c & Hc & Hd).
+      rewrite Hcs in Hc. eauto.
+    + (* EApiReturn *) rewrite B. split; discriminate.
+  - rewrite (A th' Hne). destruct (HT th') as [T1 T2]. unfold api_thread in T1. split; [|exact T2].
+    intros Hc. specialize (T1 Hc). destruct e; try exact T1.
+    + rewrite get_set_other by congruence. exact T1.
+    + rewrite get_del_other by congruence. exact T1.
+Qed.
+
 Lemma w_dup_newinst o th i n :
   w_dup (obs_step cs o (th, ENewInst i n)) =
   w_dup o || existsb (fun y => N.eqb (o_nm y) n && negb (o_ended y)) (vals (oi o)).
 Proof. reflexivity. Qed.
 
 Lemma R2_newinst s o th i n s' :
-  R2 s o -> R1 cs s' (obs_step cs o (th, ENewInst i n)) -> step_reg s th (ENewInst i n) = Some s' ->
+  R2 s o -> TI s o -> R1 cs s' (obs_step cs o (th, ENewInst i n)) -> step_reg s th (ENewInst i n) = Some s' ->
   asm o (th, ENewInst i n) = true -> w_dup (obs_step cs o (th, ENewInst i n)) = false ->
   R2 s' (obs_step cs o (th, ENewInst i n)).
 Proof.
-  intros HR H1 Hk Hasm Hw. destruct (newinst_effect _ _ _ _ _ Hk) as (c & Hc & Hi & Hcr & ->).
+  intros HR HT H1 Hk Hasm Hw. destruct (newinst_effect _ _ _ _ _ Hk) as (c & Hc & Hi & Hcr & ->).
   rewrite w_dup_newinst in Hw. apply orb_false_iff in Hw. destruct Hw as [_ Hdup].
   destruct (r2_r1 _ _ HR) as [HRc _]. rewrite (rc_confs _ _ _ HRc) in Hc.
   (* every earlier instance of the name has ended *)
@@ -532,8 +583,13 @@ Proof.
     destruct (N.eqb_spec i j) as [<-|Hne].
     + injection Hy as <-. destruct Hyo as (_ & _ & _ & _ & E2 & E1 & E3).
       constructor; rewrite ?Hbeg, ?Hst, ?Hstg, ?N.eqb_refl, ?E1, ?E2, ?E3, ?(B i Hi); cbn; auto; try discriminate.
-      intros _ _ Hapi. cbn in Hasm. rewrite Hapi in Hasm. cbn in Hasm. apply andb_true_iff in Hasm. destruct Hasm as [Hnone Hdef].
-      unfold conf_of in Hdef. rewrite Hc in Hdef. apply negb_true_iff in Hdef.
+      intros _ _ Hapi. cbn in Hasm. rewrite Hapi in Hasm. cbn in Hasm. rename Hasm into Hnone.
+      assert (Hdef : deferred c = false).
+      { destruct (HT th) as [T1 T2]. unfold creates in Hcr. change (apc (get_thread s th)) with (apc_of s th) in Hcr.
+        destruct (apc_of s th) eqn:Ea; try discriminate Hcr.
+        - destruct (T2 todo eq_refl n Hcr) as (c' & Hc' & Hd). congruence.
+        - specialize (T1 eq_refl). congruence.
+        - specialize (T1 eq_refl). congruence. }
       rewrite (N n c Hc); [now rewrite Hdef|].
       intros j y Hy Hn. destruct (rc_inst _ _ _ HRc j y Hy) as (yo & Hyo & Hno & _).
       rewrite forallb_forall in Hnone. specialize (Hnone yo (get_in_vals _ _ _ Hyo)).
@@ -566,10 +622,13 @@ Proof.
   apply negb_true_iff in H3. auto.
 Qed.
 
-Lemma R2_step s o th e s' : R2 s o -> step s (th, e) = Some s' -> asm o (th, e) = true ->
+Lemma TI_flush s o th : TI s o -> TI (flush th s) o.
+Proof. intros HT th'. rewrite flush_apc. apply HT. Qed.
+
+Lemma R2_step s o th e s' : R2 s o -> TI s o -> step s (th, e) = Some s' -> asm o (th, e) = true ->
   w_dup (obs_step cs o (th, e)) = false -> R2 s' (obs_step cs o (th, e)).
 Proof.
-  intros HR H Hasm Hw.
+  intros HR HT H Hasm Hw. apply (TI_flush _ _ th) in HT.
   assert (H1 : R1 cs s' (obs_step cs o (th, e))) by (eapply R1_step; eauto; apply (r2_r1 _ _ HR)).
   apply (R2_flush _ _ th) in HR. unfold step in H. cbn [fst snd] in H.
   set (s0 := flush th s) in *. clearbody s0. clear s.
@@ -641,29 +700,31 @@ Qed.
 Definition mon_ab (o : obs) (te : tid * event) : bool := mon_legal o te && mon_launch o te.
 
 Theorem C09_legal_launch_holds ord evs s :
+  wf_confs cs = true ->
   accept (init cs ord) evs = Some s -> holds' cs asm evs = true -> w_dup (final_obs cs evs) = false ->
   holds' cs mon_legal evs = true /\ holds' cs mon_launch evs = true.
 Proof.
-  intros Hacc HA HW. apply andb_true_iff. rewrite <- holds'_and.
-  eapply (sim2_holds cs ord (fun s o => w_dup o = true \/ R2 s o) mon_ab asm w_dup); eauto.
-  - right. apply R2_init.
+  intros Hwf Hacc HA HW. apply andb_true_iff. rewrite <- holds'_and.
+  eapply (sim2_holds cs ord (fun s o => w_dup o = true \/ (R2 s o /\ TI s o)) mon_ab asm w_dup); eauto.
+  - right. split; [apply R2_init|apply TI_init].
   - intros s1 o [th e] s1' HR Hs Ha. destruct (w_dup (obs_step cs o (th, e))) eqn:Ew; [auto|].
-    destruct HR as [Hd|HR]; [rewrite (w_dup_mono cs o (th, e) Hd) in Ew; discriminate|].
-    split; [right; eapply R2_step; eauto|]. left. unfold mon_ab.
+    destruct HR as [Hd|[HR HT]]; [rewrite (w_dup_mono cs o (th, e) Hd) in Ew; discriminate|].
+    split; [right; split; [eapply R2_step; eauto|eapply TI_step; eauto; apply (rc_confs _ _ _ (proj1 (r2_r1 _ _ HR)))]|]. left. unfold mon_ab.
     rewrite (R2_mon_legal _ _ _ _ _ HR Hs Ha), (R2_mon_launch _ _ _ _ _ HR Hs). reflexivity.
   - apply w_dup_mono.
 Qed.
 End RelC09b.
 
 (* ---- the whole monitor ------------------------------------------------------------------------------------ *)
-Definition C09_assumptions (cs : amap pconf) (evs : list (tid * event)) : bool := holds' cs (asm cs) evs.
+Definition C09_assumptions (cs : amap pconf) (evs : list (tid * event)) : bool := holds' cs asm evs.
 
 Theorem C09_main_partial_lemma cs ord evs s :
+  wf_confs cs = true ->
   accept (init cs ord) evs = Some s -> C09_assumptions cs evs = true -> w_dup (final_obs cs evs) = false ->
   holds_C09 cs evs = true.
 Proof.
-  intros Hacc HA HW. rewrite holds_C09_split.
-  destruct (C09_legal_launch_holds cs ord evs s Hacc HA HW) as [H1 H2].
+  intros Hwf Hacc HA HW. rewrite holds_C09_split.
+  destruct (C09_legal_launch_holds cs ord evs s Hwf Hacc HA HW) as [H1 H2].
   rewrite H1, H2, (C09_term_holds cs ord evs s Hacc), (C09_code_holds cs ord evs s Hacc). reflexivity.
 Qed.
 
